@@ -16,6 +16,9 @@ type Ctx struct {
 	*Run
 	Thorough bool
 	Arch     string            // GOARCH of this pass ("" = amd64)
+	// FollowDelegates: Fn resolves a method that only forwards to another declared function (the embedded type's method it used
+	// to duplicate) to that function. Set by the properties whose rules are about what a method does, not about how it is wired.
+	FollowDelegates bool
 	Overlay  map[string][]byte // file overlays (checker self-test variants)
 	mu       sync.Mutex
 	mods     map[string]*Module
@@ -103,7 +106,7 @@ func (c *Ctx) Fn(ix *PkgIndex, rule, name string) *FuncInfo {
 	c.Analysed(f)
 	// a method that only forwards to another declared function of the package with its own parameters (typically to the
 	// embedded type's method it used to duplicate) is judged on the function that does the work
-	for i := 0; i < 2; i++ {
+	for i := 0; i < 2 && c.FollowDelegates; i++ {
 		t := ix.pureDelegate(f)
 		if t == nil {
 			break
